@@ -153,7 +153,7 @@ func Run(tier string, seed uint64, modelPath, repo string, out *res.Result) erro
 	t0 := time.Now()
 	nDocs, metaEvery, rerunBudget := 3000, 3, 240*time.Second
 	if tier == "thorough" {
-		nDocs, metaEvery, rerunBudget = 150000, 6, 2400*time.Second
+		nDocs, metaEvery, rerunBudget = 150000, 6, 900*time.Second
 	}
 	if os.Getenv("WRH_C01_NORERUN") != "" {
 		rerunBudget = 0
@@ -369,7 +369,7 @@ var shrinkDeadline time.Time
 func report(pool *Pool, fails []failure, kf []kfEntry, out *res.Result, tier string) {
 	shrinkDeadline = time.Now().Add(240 * time.Second)
 	if tier == "thorough" {
-		shrinkDeadline = time.Now().Add(1500 * time.Second)
+		shrinkDeadline = time.Now().Add(600 * time.Second)
 	}
 	byKey := map[string][]failure{}
 	var keys []string
